@@ -79,9 +79,9 @@ def Seg.noSlash : Seg → Bool
   | _ => true
 
 /-- a port name "using literal text and `#N` enumerations": a non-empty C05 pattern of the
-    documented form without `{}` groups, characters below 127 -/
+    documented form without `{}` groups (any byte C05's `litChar` allows, also >= 127) -/
 def nameWf (p : Pat) : Bool :=
-  p.wf0 && !p.segs.isEmpty && p.segs.all (fun s => !Seg.isAlts s) && p.render.all (· < 127)
+  p.wf0 && !p.segs.isEmpty && p.segs.all (fun s => !Seg.isAlts s)
 
 /-- the name of a port with a sub-table: one component and a trailing '/'
     (`SNIP` cuts exactly one component) -/
@@ -94,11 +94,5 @@ def PTable.wf : PTable → Bool
 
 def PTable.WF (t : PTable) : Prop := t.wf = true
 instance (t : PTable) : Decidable t.WF := by unfold PTable.WF; infer_instance
-
-/-- every type alternative of every port of the tree fits into `n` bytes -/
-def PTable.argsFit (n : Nat) : PTable → Bool
-  | .nil => true
-  | .leaf p r => (match p.types with | none => true | some ts => ts.all (·.length ≤ n)) && r.argsFit n
-  | .node p c _ r => (match p.types with | none => true | some ts => ts.all (·.length ≤ n)) && c.argsFit n && r.argsFit n
 
 end Rtosc.Ports
